@@ -38,11 +38,11 @@ CHECKS = {
     "C11": seq(["TestC11"], qchecks=150, tchecks=1500),
     "C12": seq(["TestC12"], qchecks=200, tchecks=1200),
     "C13": seq(["TestC13", "TestC13Race", "TestC13Idle", "TestC13Child"], qchecks=400, tchecks=4000, qshards=4, per_test={"TestC13Idle": (8, 2, 16, 12), "TestC13Child": (8, 4, 16, 40)}),
-    "C14": seq(["TestC14", "TestC14Window"], qchecks=2, tchecks=8, qshards=4, per_test={"TestC14Window": (3, 3, 9, 12)}),
+    "C14": seq(["TestC14", "TestC14Window"], qchecks=4, tchecks=8, qshards=4, per_test={"TestC14Window": (3, 3, 9, 12)}),
     "C15": seq(["TestC15"], qchecks=20, tchecks=400, qshards=8),
     "C17": seq(["TestC17", "TestC17Race"], per_test={"TestC17Race": (4, 120, 16, 3000)}),
     "C18": seq(["TestC18Seq", "TestC18Race"], qchecks=400, fuzz={"FuzzC18Path": 240}, per_test={"TestC18Race": SCRIPT}),
     "C19": seq(["TestC19"], qchecks=400),
-    "C20": seq(["TestC20"], qchecks=3, tchecks=40, qshards=6),
+    "C20": seq(["TestC20"], qchecks=5, tchecks=40, qshards=8),
     "C16": seq(["TestC16"], qchecks=20, tchecks=300, qshards=6),
 }
